@@ -19,10 +19,6 @@ func (f fromArrayStruct) DiffsTo(toArray []string) (added, deleted, common []str
 	inFrom := 1
 	inTo := 2
 
-	if f.from == nil {
-		return toArray, []string{}, []string{}
-	}
-
 	m := make(map[string]int, len(toArray))
 	added = make([]string, 0, len(toArray))
 	deleted = make([]string, 0, len(f.from))
